@@ -179,6 +179,22 @@ var c11Reads = []c11Read{
 		return rs(c.Has("b.c", -1, append(o, ucfg.PathSep("."))...))
 	}},
 	{"Has(l,5)", func(c *ucfg.Config, o []ucfg.Option) string { return rs(c.Has("l", 5, o...)) }},
+	{"named lookups on the list l", func(c *ucfg.Config, o []ucfg.Option) string {
+		op := append(append([]ucfg.Option{}, o...), ucfg.PathSep("."))
+		s := rs(c.Has("l.name", -1, op...)) + " " + rs(c.String("l.name", -1, op...)) + " "
+		if l, err := c.Child("l", -1, o...); err == nil {
+			s += rs(l.Has("name", -1, o...)) + " " + rs(l.String("name", -1, o...)) + " " + rs(l.CountField("name", o...)) + fmt.Sprint(" ", l.HasField("name"), l.IsDict(), l.IsArray())
+		}
+		return s
+	}},
+	{"Unpack->struct with an object where the config has the list l", func(c *ucfg.Config, o []ucfg.Option) string {
+		var t struct {
+			L struct{ Name string }
+			B struct{ C interface{} }
+		}
+		err := c.Unpack(&t, o...)
+		return rs(fmt.Sprintf("%+v", t), err)
+	}},
 	{"CountField(l)", func(c *ucfg.Config, o []ucfg.Option) string { return rs(c.CountField("l", o...)) }},
 	{"CountField(b)", func(c *ucfg.Config, o []ucfg.Option) string { return rs(c.CountField("b", o...)) }},
 	{"GetFields/Path/Parent", func(c *ucfg.Config, o []ucfg.Option) string {
